@@ -8,7 +8,7 @@ plaintext to decode to exactly the scoped PDU of the request followed by less th
 replies encrypted the same way must be delivered with their exact content."""
 import json
 from vlib import env, tlc, trace, sesscheck, scripts, v3hist, rawdrv, agent as ag
-from vlib.report import Check
+from vlib.report import Check, confirm_by_replay
 from vlib.env import ToolError, SEED
 
 PROP = "C11"
@@ -119,6 +119,11 @@ def run_common(chk, tier, props, label):
         a, b = v3hist.run_history(rec, std[cn], s)
         runs.append((a, b, dict(cfgname=cn, script=[{"a": "send", "n": 5, "times": len(s)}])))
         chk.case((cn, "unanswered-run"))
+    # public-API histories of privacy users: discovery datagrams lost, enter / refresh retried, then requests
+    from checks import c13
+    for a, b, info in c13.lost_discovery_histories(rec, [("md5", "des", "password"), ("sha1", "aes", "master"), ("md5", "aes", "password")], thorough, base_idx=300):
+        info.update(cfgname="api:%s-%s" % (info["auth"], info["priv"]), script=[{"a": "api-history", "calls": info["calls"]}])
+        runs.append((a, b, info))
     rec.close()
     print("  %d histories, %d events" % (len(runs), rec.n), flush=True)
     v = trace.validate_parallel("TraceSession.tla", trace_cfg(props), rec.events, [(a, b) for a, b, _ in runs], k=12, name=label)
@@ -141,6 +146,13 @@ def run(tier):
                 "on real DES and AES sessions + a run of 90-200 unanswered requests; distinct = (config, history); non-trivial = history with >= 2 sends")
     fails, rec, runs = run_common(chk, tier, PROPS, "c11")
     for idx, a, info, ev in fails:
+        if info.get("api_history"):
+            from checks import c13
+            chk.violation(dict(kind="api-history", client=info["kind"], ev=ev["ev"], op=ev.get("op"), got=ev.get("exc") or "ok"),
+                          "%s session configured with auth=%s priv=%s, calls %s with datagrams %s lost: %s (%s) - a request left that is not encrypted as the configured user's" %
+                          (info["kind"], info["auth"], info["priv"], info["calls"], [k for k, p in enumerate(info["plan"]) if p == "drop"], ev["ev"], ev.get("op")),
+                          dict(info=info), confirm=confirm_by_replay(c13.replay, dict(info=info)))
+            continue
         cipher = "des" if "des" in info["cfgname"] else "aes"
         # shape: number of sends since the private buffer was last reset (decrypt / set_keys) before the failing event
         evs = rec.events[a:idx + 1]
@@ -161,6 +173,12 @@ def run(tier):
 def replay(path):
     d = json.load(open(path))
     r = d["replay"]
+    if r.get("info", {}).get("api_history"):
+        from checks import c13
+        rc = c13.replay(path)
+        if rc == 1:
+            print("VIOLATION property=%s replay=%s" % (PROP, path))
+        return rc
     rec = trace.Recorder("c11-replay")
     s = r["script"]
     if s and "times" in s[0]:
